@@ -290,6 +290,44 @@ func checkPolygon(c polyProbe) ev.Outcome {
 		}
 	}
 	o.NonTrivial = nv >= 32 || anyVertex
+	// A loop OBJECT that is a hole of this polygon, handed alone to PolygonFromLoops,
+	// is the only shell of the new polygon: membership = parity of that ring alone,
+	// on the path without an index (first calls) and with it.
+	for k := 0; k < poly.NumLoops(); k++ {
+		hl := poly.Loop(k)
+		if !hl.IsHole() {
+			continue
+		}
+		var ring []gen.P
+		for _, r := range c.R.Rings {
+			if len(r) == hl.NumVertices() && r[0].Pt() == hl.Vertex(0) {
+				ring = r
+			}
+		}
+		if ring == nil {
+			break
+		}
+		one := [][]r3.Vector{vecs(ring)}
+		q1 := s2.PolygonFromLoops([]*s2.Loop{hl})
+		for pass := 0; pass < 2; pass++ {
+			for i, pp := range c.Probes {
+				p := pp.Pt()
+				if antipodalish(known, p) {
+					continue
+				}
+				want := exact.ParityContains(one, known.Vector, true, p.Vector)
+				if g := q1.ContainsPoint(p); g != want {
+					o.Err = fmt.Sprintf("probe %d: single-loop polygon built from a loop that was a hole before: ContainsPoint=%v, exact parity of that ring=%v (index built=%v)", i, g, want, pass == 1)
+					o.Finding = "polygon-reused-loop"
+					return o
+				}
+			}
+			if ix := s2.VerifPolygonIndex(q1); ix != nil {
+				ix.Build()
+			}
+		}
+		break
+	}
 	return o
 }
 
